@@ -117,6 +117,13 @@ def _c07_can_append_empty(v):
     return v["oracle"] == "can_append" and m.get("empty_argument") is True and m.get("expected") is True and m.get("types_share_a_first_child") is False
 
 
+@predicate("C13-add-mark-strips-excluded-marks-inside-inline-container")
+def _c13_box_strip(v):
+    m = v["mech"]
+    return v["oracle"] == "marks-effect" and m.get("op") == "add_mark" and m.get("token_directly_inside_inline_container") is True \
+        and m.get("only_lost_marks_that_the_added_mark_excludes") is True
+
+
 @predicate("C17-reparenting-mark-step-diverges")
 def _c17_reparent_mark_div(v):
     m = v["mech"]
